@@ -1,6 +1,6 @@
 """Shared by C05 / C06 / C08: option grid of Matrix<Options>, generators of filtered cell complexes and of operation
 scripts, runner (harness -> oracle with verified checkers)."""
-import itertools, os
+import itertools, os, zlib
 from vlib import core
 
 COLTYPES = ["LIST", "SET", "HEAP", "VECTOR", "NAIVE_VECTOR", "SMALL_VECTOR", "UNORDERED_SET", "INTRUSIVE_LIST", "INTRUSIVE_SET"]
@@ -9,18 +9,28 @@ COLTYPES = ["LIST", "SET", "HEAP", "VECTOR", "NAIVE_VECTOR", "SMALL_VECTOR", "UN
 class Cfg:
     def __init__(self, kind, col, z2=1, idx="CONTAINER", rows=0, intr=1, remrows=0, remcols=0, mapc=0, pair=1, vine=0, rep=0, maxdim=0):
         self.kind = kind  # boundary | ru | chain
+        self.rel = None   # True: release build (NDEBUG), False: debug checks on, None: decided by run_cases (half of the option sets)
         self.d = dict(COLT=col, Z2=z2, BOUNDARY=0 if kind == "chain" else 1, IDX=idx, ROWS=rows, INTR_ROWS=intr, REM_ROWS=remrows,
                       REM_COLS=remcols, MAPC=mapc, PAIR=pair, VINE=vine, REP=rep, MAXDIM=maxdim)
 
     @property
     def flags(self):
-        return ["-D%s=%s" % kv for kv in sorted(self.d.items())]
+        return ["-D%s=%s" % kv for kv in sorted(self.d.items())] + (["-DNDEBUG"] if self.rel else [])
+
+    def release_copy(self):
+        import copy
+        self.rel = False
+        c = copy.copy(self)
+        c.d = dict(self.d)
+        c.rel = True
+        return c
 
     @property
     def tag(self):
         d = self.d
         return "%s_%s_%s_%s_r%d%d%d_c%d%d_p%dv%dr%dm%d" % (self.kind, d["COLT"].lower(), "z2" if d["Z2"] else "zp", d["IDX"][:3].lower(),
-                                                          d["ROWS"], d["INTR_ROWS"], d["REM_ROWS"], d["REM_COLS"], d["MAPC"], d["PAIR"], d["VINE"], d["REP"], d["MAXDIM"])
+                                                          d["ROWS"], d["INTR_ROWS"], d["REM_ROWS"], d["REM_COLS"], d["MAPC"], d["PAIR"], d["VINE"], d["REP"], d["MAXDIM"]) + \
+            ("_rel" if self.rel else "")
 
     @property
     def z2(self):
@@ -348,7 +358,16 @@ def script_c05(rng, cx, cfg, p, name):
 # ------------------------------------------------------------------------------------------------ running
 def run_cases(ctx, res, cfgs, scripts_for, build_tag_prefix="pm", per_case=False):
     """scripts_for(cfg) -> list of (name, [lines]); returns nothing, fills res"""
-    jobs = [("pm_drv.cpp", c.tag, c.flags) for c in cfgs]
+    # release builds: with NDEBUG the GUDHI_CHECK conditions (some of which call functions with side effects, e.g. get_pivot()
+    # purging lazily erased entries) are not evaluated; PM_NDEBUG=all|none|half (default half: by a CRC of the option-set tag and the parity of VERIF_SEED)
+    mode = os.environ.get("PM_NDEBUG", "half")
+    def ndebug(c):
+        if c.rel is not None:
+            return c.rel
+        return mode == "all" or (mode == "half" and bool(core.release_flags(c.tag)))
+    jobs = [("pm_drv.cpp", c.tag, list(c.flags) + (["-DNDEBUG"] if ndebug(c) and not c.rel else [])) for c in cfgs]
+    for c in cfgs:
+        res.count("build:" + ("release (NDEBUG)" if ndebug(c) else "debug checks on (GUDHI_DEBUG)"))
     bins = ctx.build_many(jobs)
     orc = ctx.build_oracle("pm")
     work = []
